@@ -62,8 +62,8 @@ for _fam, _unw, _nc in ((0, 17, 2), (1, 17, 2), (2, 257, 3), (255, 257, 1), (Non
 
 _EI = dict(cls='B', tu='C10_ms_enc_init.c', dfcc=False, canary='real', timeout=1500, mem_gb=12,
     trusted=['stub sizes / recording init / recording ctl of the single-stream encoder (the real ones: C11 enc_init groups)'])
-for _est, _ech, _etier, _en in ((2, 3, 'quick', 'ms_encoder_init'), (3, 4, 'thorough', 'ms_encoder_init_s3c4')):
-  GROUPS.append(dict(_EI, name=_en, tier=_etier, defines=['-DVERIF_ST=%d' % _est, '-DVERIF_CH=%d' % _ech], entry='h_ms_encoder_init', expect_canaries=3, unwind=6,
+for _est, _ech, _etier, _en in ((3, 4, 'quick', 'ms_encoder_init'), (4, 6, 'thorough', 'ms_encoder_init_s4c6')):
+  GROUPS.append(dict(_EI, name=_en, tier=_etier, defines=['-DVERIF_ST=%d' % _est, '-DVERIF_CH=%d' % _ech], entry='h_ms_encoder_init', expect_canaries=3, unwind=_ech + 2,
       functions=['opus_multistream_encoder_get_size', 'opus_multistream_encoder_init', 'opus_multistream_encoder_init_impl', 'validate_layout', 'validate_encoder_layout', 'get_left_channel', 'get_right_channel', 'get_mono_channel'],
       bounds='<= %d streams, <= %d channels (counts otherwise any int), mapping bytes symbolic' % (_est, _ech),
       what='multistream encoder creation: illegal counts and invalid layouts (entry beyond the coded channels, stream or stream side without input channel) rejected before any stream is touched; otherwise one encoder per stream, coupled first, back to back inside get_size(), documented defaults, a failing stream initialiser reported'))
